@@ -198,6 +198,12 @@ func (s *Stump) add(adds []Hash) ([]Hash, []uint64, []uint64) {
 			}
 		}
 
+		// A leaf that wasn't hashed with any root becomes a root as is. It still
+		// is a newly added node so include it in the updated nodes.
+		if newRoot == add {
+			updatedNodes[add] = pos
+		}
+
 		s.Roots = append(s.Roots, newRoot)
 		s.NumLeaves++
 	}
